@@ -7,9 +7,9 @@ S=$(/verif/lib/mkscratch.sh "pe_$P" | tail -1)
 export VERIF_REPO="$S/repo"
 cd "$S/verif" || exit 2
 for f in $D/$G; do
-  git -C "$S/repo" apply "$f" || { echo "$P $(basename $f) APPLY-FAILED"; continue; }
+  git -C "$S/repo" apply "$f" || { echo "$P ${f#$D/} APPLY-FAILED"; continue; }
   ./check "$P" --tier quick > "$S/out.txt" 2>&1; RC=$?
-  echo "$P $(basename $f) rc=$RC $(grep -a 'VIOLATION\|theorems' "$S/out.txt" | tail -2 | tr '\n' ' ' | cut -c1-260)"
+  echo "$P ${f#$D/} rc=$RC $(grep -a 'VIOLATION\|theorems' "$S/out.txt" | tail -2 | tr '\n' ' ' | cut -c1-260)"
   git -C "$S/repo" checkout -- . ; git -C "$S/repo" clean -fdq
 done
 /verif/lib/rmscratch.sh "pe_$P" >/dev/null 2>&1
